@@ -130,7 +130,7 @@ static Instance group(const std::string &name, int n, std::vector<std::vector<in
 
 static std::vector<Instance> mk(const std::string &tier) {
 	bool th = tier == "thorough";
-	int N = th ? 8 : 6, K = 3;
+	int N = th ? 7 : 6, K = 3;
 	// priority assignments up to monotone renaming are not collapsed: all K^N assignments for N<=5,
 	// for N=7 all assignments that are non-decreasing after sorting ids is NOT equivalent (ids matter
 	// only through push order, which the BFS permutes) -> use canonical assignments: sorted by id.
@@ -145,6 +145,8 @@ static std::vector<Instance> mk(const std::string &tier) {
 	}
 	std::vector<Instance> v;
 	for(size_t g = 0; g < all.size(); g++) v.push_back(group("ph-N" + std::to_string(N) + "-" + keyname(all[g]), N, {all[g]}));
+	// thorough: 8 nodes for the balanced multisets (the all-equal ones have tens of millions of states)
+	if(th) for(auto k : std::vector<std::vector<int>>{{0, 0, 0, 1, 1, 2, 2, 2}, {0, 0, 1, 1, 1, 2, 2, 2}, {0, 0, 0, 1, 1, 1, 2, 2}}) v.push_back(group("ph-N8-" + keyname(k), 8, {k}));
 	return v;
 }
 
